@@ -16,7 +16,9 @@ from ahrs.common import frames as FR
 
 LATS = [0.0, 30.0, -30.0, 60.0, -60.0, 89.9999, -89.9999, 90.0, -90.0, 1e-9, -1e-9, 45.0,
         # metres from the rotation axis (3 m, 1.7 m, 11 cm), and a few metres from the equatorial plane
-        89.99997, -89.999985, 89.999999, 3e-5]
+        89.99997, -89.999985, 89.999999, 3e-5,
+        # kilometres from the rotation axis (5.6 km, 3.3 km, 1.1 km, 56 km, 550 km): a polar-cap shortcut exact only AT the pole shows here
+        89.95, -89.97, 89.99, -89.5, 85.0]
 LONS = [0.0, 90.0, -90.0, 180.0, -180.0, 11.57, -123.456,
         # metres from the antimeridian (5.5 m, 1.1 m, 11 cm) and from the prime meridian
         179.99995, -179.99999, 179.999999, -2e-5, 135.0]
